@@ -176,6 +176,9 @@ func runC06(r *run) {
 			}
 			c.attrs = append(c.attrs, gattr{key: "time", val: c09TimeAttr(t)})
 		}
+		if i%8 == 3 {
+			c.attrs = append(c.attrs, g.genWideAttrs(false)...)
+		}
 		if g.chance(1, 8) {
 			// colors of a level changed at run time, including pairs without a foreground or without a background
 			fg, bg := []int{-1, 31, 35, 93}[g.intn(4)], []int{-1, 4, 44, 1}[g.intn(4)]
